@@ -283,20 +283,20 @@ def _mirror_witness(dst_there: bool, dst_id: int) -> bool:
     return not any(op[0] == 'rename' for op in fs.log)     # reachability twin: a staged rename must be reachable
 
 
-def _run_cp(ch_style: int, present0: bool, present1: bool) -> bool:
+def _run_cp(ch_style: int, present0: bool, present1: bool, dst_pre: bool) -> bool:
     """
-    pre: 0 <= ch_style <= 3
+    pre: 0 <= ch_style <= 3 and (not dst_pre or present0)
     post: _
     """
-    return _run_cmd(0, ch_style, present0, present1, False)
+    return _run_cmd(0, ch_style, present0, present1, False, dst_pre)
 
 
-def _run_mv(ch_style: int, present0: bool, present1: bool) -> bool:
+def _run_mv(ch_style: int, present0: bool, present1: bool, dst_pre: bool) -> bool:
     """
-    pre: 0 <= ch_style <= 3
+    pre: 0 <= ch_style <= 3 and (not dst_pre or present0)
     post: _
     """
-    return _run_cmd(1, ch_style, present0, present1, False)
+    return _run_cmd(1, ch_style, present0, present1, False, dst_pre)
 
 
 def _run_ln(ch_style: int, present0: bool, present1: bool, symbolic: bool) -> bool:
@@ -304,7 +304,7 @@ def _run_ln(ch_style: int, present0: bool, present1: bool, symbolic: bool) -> bo
     pre: 0 <= ch_style <= 3
     post: _
     """
-    return _run_cmd(2, ch_style, present0, present1, symbolic)
+    return _run_cmd(2, ch_style, present0, present1, symbolic, False)
 
 
 def _run_witness(cmd: int, present0: bool) -> bool:
@@ -312,4 +312,4 @@ def _run_witness(cmd: int, present0: bool) -> bool:
     pre: 0 <= cmd <= 2
     post: _
     """
-    return not (_run_cmd(cmd, 1, present0, False, False) and present0)      # reachability twin: a successful one-file transfer is reachable
+    return not (_run_cmd(cmd, 1, present0, False, False, False) and present0)      # reachability twin: a successful one-file transfer is reachable
